@@ -150,6 +150,10 @@ fn dump<'tcx>(tcx: TyCtxt<'tcx>, out: &str) {
                     continue;
                 }
                 fns.push(dump_fn(&mut cx, ldid));
+                let proms = tcx.promoted_mir(did);
+                for (pi, pb) in proms.iter_enumerated() {
+                    fns.push(dump_body(&mut cx, ldid, pb, Some(pi.as_usize())));
+                }
             }
             DefKind::Static { .. } => {
                 statics.push(dump_static(&mut cx, ldid));
@@ -365,10 +369,14 @@ fn dump_unsafe_blocks<'tcx>(cx: &mut Cx<'tcx>) -> Vec<J> {
 }
 
 fn dump_fn<'tcx>(cx: &mut Cx<'tcx>, ldid: LocalDefId) -> J {
+    let body: &Body<'tcx> = cx.tcx.optimized_mir(ldid.to_def_id());
+    dump_body(cx, ldid, body, None)
+}
+
+fn dump_body<'tcx>(cx: &mut Cx<'tcx>, ldid: LocalDefId, body: &Body<'tcx>, promoted: Option<usize>) -> J {
     let tcx = cx.tcx;
     let did = ldid.to_def_id();
     let kind = tcx.def_kind(did);
-    let body: &Body<'tcx> = tcx.optimized_mir(did);
     let def_span = tcx.def_span(did);
     let full_span = body.span;
 
@@ -413,7 +421,7 @@ fn dump_fn<'tcx>(cx: &mut Cx<'tcx>, ldid: LocalDefId) -> J {
 
     let mut captures = vec![];
     let mut parent = J::Null;
-    if kind == DefKind::Closure {
+    if kind == DefKind::Closure && promoted.is_none() {
         let root = tcx.typeck_root_def_id(did);
         parent = cx.path(root);
         for c in tcx.closure_captures(ldid) {
@@ -457,9 +465,17 @@ fn dump_fn<'tcx>(cx: &mut Cx<'tcx>, ldid: LocalDefId) -> J {
             }
         }
     }
+    let path_j = match promoted {
+        Some(i) => {
+            let base = cx.path_string(did);
+            cx.s(format!("{}::promoted[{}]", base, i))
+        }
+        None => cx.path(did),
+    };
+    let kind_s = if promoted.is_some() { "Promoted".to_string() } else { format!("{:?}", kind) };
     J::O(vec![
-        ("path".into(), cx.path(did)),
-        ("kind".into(), J::S(format!("{:?}", kind))),
+        ("path".into(), path_j),
+        ("kind".into(), J::S(kind_s)),
         ("span".into(), cx.span4(full_span)),
         ("def_line".into(), cx.pos(def_span)),
         ("unsafe".into(), J::B(cx.is_unsafe_fn(did))),
@@ -612,6 +628,9 @@ fn constant<'tcx>(cx: &mut Cx<'tcx>, caller: DefId, c: &ConstOperand<'tcx>) -> J
     }
     if let Const::Unevaluated(uv, _) = c.const_ {
         fields.push(("item".into(), cx.path(uv.def)));
+        if let Some(p) = uv.promoted {
+            fields.push(("promoted".into(), J::I(p.as_usize() as i64)));
+        }
     }
     let env = ty::TypingEnv::post_analysis(tcx, caller);
     let mut done = false;
